@@ -18,10 +18,10 @@ RULE = ("fmt: the whole accepted grammar fill{none,' ','*','0','x'} x align{none
         "async reset), an optional comb-domain program, nested If/Elif/Else and Switch/Case/Default (lowered by the "
         "Gallina model), Print(Format) with 1-3 fields over sig/as_signed/as_unsigned/~/-, Assert/Assume/Cover with and "
         "without message, driven by hand over 6-16 steps (set input / toggle one clock / change one reset / clock and reset of a domain in one command); plus every "
-        "29th accepted spec of the grammar (every 3rd in thorough) printed by the real simulator for 3 values; "
+        "37th accepted spec of the grammar (every 3rd in thorough) printed by the real simulator for 3 values; "
         "observable = captured stdout + exception class/text + step index; "
         "rtl: FORMAT parameter of the $print cell written by back.rtlil for Print(Format('x{' '{:spec}', sig)) over every "
-        "13th spec of the grammar (all in thorough) + random + fixed ('<05', '5c', brace and non-ASCII fills) vs the model "
+        "17th spec of the grammar (all in thorough) + random + fixed ('<05', '5c', brace and non-ASCII fills) vs the model "
         "of emit_print's string building. "
         "non-trivial = accepted spec (fmt/spec/rtl) or non-empty output/stop (sim); distinct by case hash")
 MODELLED = ("Format._FORMAT_SPEC_PATTERN/_parse_format_spec, _StatementCompiler.emit_format/on_Print/on_Property, "
@@ -150,12 +150,12 @@ def gen_cases(tier, seed):
         w, sg = _shape_for(rng, t, bad=rng.random() < 0.08)
         cases.append({"k": "fmt", "spec": spec, "w": w, "sg": sg, "vs": _fmt_values(rng, t, w, nv if thorough else 1)})
     # wider widths / other fills, random
-    for _ in range(1500 if not thorough else 20000):
+    for _ in range(800 if not thorough else 20000):
         spec, t = _rand_spec(rng, valid=True)
         w, sg = _shape_for(rng, t)
         cases.append({"k": "fmt", "spec": spec, "w": w, "sg": sg, "vs": _fmt_values(rng, t, w, nv)})
     # --- stream 2: accept / reject and the parsed dict
-    for _ in range(3000 if not thorough else 30000):
+    for _ in range(2000 if not thorough else 30000):
         r = rng.random()
         if r < 0.35:
             spec, t = _rand_spec(rng, valid=True)
@@ -180,8 +180,13 @@ def gen_cases(tier, seed):
         for (w, sg) in [(8, False), (8, True), (12, False), (0, False), (1, True)]:
             cases.append({"k": "spec", "cls": "fixed", "spec": spec, "w": w, "sg": sg})
     # --- stream 3: simulations
-    for i in range(800 if not thorough else 12000):
+    for i in range(600 if not thorough else 12000):
         cases.append(_rand_sim(rng, thorough))
+    # the open finding C20-brace-fill is always exercised (accepted spec with a brace fill, printed at an edge)
+    for spec, v in (("{<5", 5), ("}>4d", 7), ("{=6x", 255)):
+        cases.append({"k": "sim", "cls": "print+brace", "sigs": [[8, False]], "comb": [], "regs": [],
+                      "doms": [{"pos": True, "rst": False, "async": False, "prog": [["print", [["fld", ["sig", 0], spec]]]]}],
+                      "steps": [["set", 0, v], ["clk", 0, 1]]})
     # --- stream 3b: every k-th spec of the grammar printed by the real simulator (3 values each)
     k = 0
     for fill_align, sign, alt, zero, width, grp, t in itertools.product(
@@ -189,7 +194,7 @@ def gen_cases(tier, seed):
         k += 1
         if t in ("c", "s") and (sign or alt or zero or grp or "=" in fill_align):
             continue                                   # rejected at construction: covered by the spec stream
-        if k % (3 if thorough else 29) != seed % (3 if thorough else 29):
+        if k % (3 if thorough else 37) != seed % (3 if thorough else 37):
             continue
         cases.append(_grammar_sim(rng, fill_align + sign + alt + zero + width + grp + t, t))
     # --- stream 4: FORMAT parameter of the emitted RTLIL $print cell (emission only; no Yosys here)
@@ -197,11 +202,11 @@ def gen_cases(tier, seed):
     for fill_align, sign, alt, zero, width, grp, t in itertools.product(
             fa, ["", "-", "+", " "], ["", "#"], ["", "0"], ["", "1", "5", "12"], ["", "_"], TYPES):
         k += 1
-        if not thorough and k % 13 != seed % 13:
+        if not thorough and k % 17 != seed % 17:
             continue
         w, sg = _shape_for(rng, t, bad=rng.random() < 0.03)
         cases.append({"k": "rtl", "spec": fill_align + sign + alt + zero + width + grp + t, "w": w, "sg": sg})
-    for _ in range(300 if not thorough else 6000):
+    for _ in range(150 if not thorough else 6000):
         w, sg = _shape_for(rng, rng.choice(TYPES))
         spec, t = _rand_spec(rng, valid=rng.random() < 0.9, shape=(w, sg), allow_brace=rng.random() < 0.1)
         cases.append({"k": "rtl", "spec": spec, "w": w, "sg": sg})
@@ -216,7 +221,7 @@ def gen_cases(tier, seed):
 FILLS = [" ", "*", "0", "x", "<", "^", "=", ">", "-", "+", "#", "_", "é", "中", "1", "s", "c", ",", "n"]
 
 
-def _rand_spec(rng, valid, shape=None, allow_brace=False, small=False):
+def _rand_spec(rng, valid, shape=None, allow_brace=False, small=False, stray_brace=True):
     """returns (spec, type); valid=True stays inside the grammar accepted for a suitable shape"""
     types = TYPES
     if shape is not None and valid:
@@ -235,7 +240,9 @@ def _rand_spec(rng, valid, shape=None, allow_brace=False, small=False):
         if allow_brace and rng.random() < 0.5:
             f = rng.choice("{}")
         if not valid and rng.random() < 0.05:
-            f = rng.choice(["\n", "{", "}"])
+            # a brace fill in a simulated format is only drawn in the controlled form (single field, no brace in the
+            # literals): elsewhere the simulator's malformed format string fails with other classes (KeyError ...)
+            f = rng.choice(["\n", "{", "}"] if stray_brace else ["\n"])
         fa = f + rng.choice(aligns)
     if not valid and rng.random() < 0.08:
         fa = fa[:-1] + "^" if fa else "^"
@@ -310,7 +317,7 @@ def _rand_sim(rng, thorough):
             valid = rng.random() < 0.97
             if not valid:
                 stats["bad"] += 1
-            spec, _ = _rand_spec(rng, valid=valid, shape=vshape(e), allow_brace=brace, small=True)
+            spec, _ = _rand_spec(rng, valid=valid, shape=vshape(e), allow_brace=brace, small=True, stray_brace=False)
             if brace and spec[:1] in "{}":
                 stats["brace"] += 1
             chunks.append(["fld", e, spec])
